@@ -24,6 +24,8 @@ SW = {
     "no-tail-cut-no-screens": "0 1 0 0 0 0",
     "finest-level": "1 1 1 1 1 1",          # adaptive quadratures never accept a level early (radial tolerance 0)
     "no-tail-cut-finest-level": "0 1 1 1 1 1",
+    "no-tail-cut+no-radial-screen": "0 1 0 1 1 0",
+    "quadrature-only-finest": "0 0 0 1 1 1",  # every recorded radial finding switched off at once
     "quadrature-only": "0 0 0 1 1 0",       # every primitive radial integral by quadrature (no closed forms, no tail cut, no radial screen)
 }
 
